@@ -16,7 +16,7 @@ namespace GooseVerif.GL
 inductive SegOut where
   | sync (t : Thread) (w : World) (spawn : Option Thread)
   | blocked
-  | done (v : Val) (w : World)
+  | done (v : Val) (w : World) (spawn : Option Thread := none)
   | stuck (why : String)
   | fuel
   deriving Inhabited
@@ -42,7 +42,7 @@ partial def runSegmentB (p : Prog) (fuel : Nat) (w : World) (t : Thread) (first 
     if sync && !first then .sync t w spawn
     else runSegmentB p (fuel - 1) w' t' false (if sync then sp else spawn)
   | .blocked => if first then .blocked else .sync t w spawn
-  | .done v => .done v w
+  | .done v => .done v w spawn        -- a thread that ends with a `Fork` still hands over the thread it spawned
   | .stuck why => .stuck why
 
 structure ExpState where
@@ -70,9 +70,12 @@ partial def explore (p : Prog) (modeB : Bool) (maxStates segFuel : Nat) (w : Wor
         let ths := threads.set! i (some t')
         let ths := match sp with | some nt => ths.push (some nt) | none => ths
         (explore p modeB maxStates segFuel w' ths st, true, true)
-      | .done v w' =>
+      | .done v w' sp =>
         if i == 0 then (st.add ("value " ++ showVal w' 6 v), true, true)
-        else (explore p modeB maxStates segFuel w' (threads.set! i none) st, true, true)
+        else
+          let ths := threads.set! i none
+          let ths := match sp with | some nt => ths.push (some nt) | none => ths
+          (explore p modeB maxStates segFuel w' ths st, true, true)
       | .blocked => (st, moved, true)
       | .stuck why => (st.add ("stuck " ++ why), true, true)
       | .fuel => (st.add "fuel", true, true)
